@@ -330,7 +330,7 @@ func partFlagsRealBinary(c *check.Ctx, a *acc) {
 			panic(err)
 		}
 		defer p.Kill()
-		for k := 0; k < 1000 && hds.Secret() == ""; k++ {
+		for k := 0; k < 4000 && hds.Secret() == ""; k++ {
 			time.Sleep(10 * time.Millisecond)
 		}
 		if hds.Secret() == "" {
